@@ -345,9 +345,16 @@ def run(ctx):
             if "raise" in r and str(r.get("msg", "")).startswith("LinAlgError"):
                 upto = k  # numerical failure of a LAPACK kernel (e.g. singular block): not modelled
                 break
-        kw = dict(structure=True) if it["floaty"] else dict(drop_zero=True)
-        ci = stream.canon_results(it["impl"][:upto], **kw)
-        cm = stream.canon_results(m["results"][:upto], **kw)
+        # value view for every step whose data are exact; structure view (without the lazily kept sign
+        # table, which is representation, not structure) for results derived from LAPACK outputs
+        tainted_f, kws = set(), []
+        for st in it["case"]["steps"][:upto]:
+            fl = st["op"] in impl.FLOAT_OPS or any(x in tainted_f for x in st["in"])
+            if fl:
+                tainted_f.update(st["out"])
+            kws.append(dict(structure=True, phases=False) if fl else dict(drop_zero=True))
+        ci = [stream.canon_results([r], **kw)[0] for r, kw in zip(it["impl"][:upto], kws)]
+        cm = [stream.canon_results([r], **kw)[0] for r, kw in zip(m["results"][:upto], kws)]
         k = stream.first_diff(ci, cm)
         if k is not None:
             ctx.disagreements_checked += 1
